@@ -5,7 +5,11 @@
    rejection of every truncation, work bounded by the input whatever entry count
    the bytes claim), the snapshot format header, and the ticket-shape table of
    operations (whatever the decoder accepts as an operation of a change carries
-   every ticket the executor dereferences).  The protobuf conversion of
+   every ticket the executor dereferences); and the protobuf wire format of the
+   message every operation, element and change id is made of, api.TimeTicket:
+   varints as protowire reads and writes them, and the message itself (model
+   compared with proto.Marshal byte for byte and with proto.Unmarshal on
+   arbitrary, mutated and hand-made hostile bytes).  The protobuf conversion of
    operations, elements and snapshots (to_pb/from_pb, to_bytes/from_bytes) has
    no Coq model: its round trip is decided by the codec engine, which pushes
    every pack, change and snapshot of generated histories through each encoding
@@ -13,7 +17,7 @@
    structure-aware hostile stream.  PARTIAL, stated in the manifest. *)
 From Coq Require Import List ZArith.
 From Coq Require String.
-From YV Require Import Codec.VVBytes Codec.OpShape Codec.SnapHeader Proofs.CodecProofs.
+From YV Require Import Codec.VVBytes Codec.OpShape Codec.SnapHeader Proofs.CodecProofs Codec.PbWire Proofs.PbWireProofs.
 Import ListNotations.
 Open Scope Z_scope.
 
@@ -52,3 +56,13 @@ Theorem C09_missing_ticket_rejected : forall k present f,
   In f (executor_reads k) -> ~ In f present -> change_op_ok k present = false.
 Proof. exact missing_ticket_rejected. Qed.
 Print Assumptions C09_missing_ticket_rejected.
+
+(* protobuf wire format: a varint of any 64-bit value reads back, whatever follows *)
+Theorem C09_varint_roundtrip : forall n rest, (n < 2 ^ 64)%N -> read_varint (varint n ++ rest) = Some (n, rest).
+Proof. exact read_varint_varint. Qed.
+Print Assumptions C09_varint_roundtrip.
+
+(* ... and so does the TimeTicket message: any lamport (negative ones included), delimiter, actor id *)
+Theorem C09_ticket_wire_roundtrip : forall t, ticket_ok t -> decode_ticket (encode_ticket t) = Some t.
+Proof. exact ticket_roundtrip. Qed.
+Print Assumptions C09_ticket_wire_roundtrip.
